@@ -428,6 +428,12 @@ Definition item_table_ok (tenv ext : list text) (item : list tree) : bool :=
   | [] => false
   | _ => true
   end.
+(* the alias introduced with AS is ONE identifier: `t AS a.b` is not an alias in any dialect *)
+Definition item_alias_ok (item : list tree) : bool :=
+  match drop_until (is_kw kw_as) item with
+  | Some (Leaf (TId _) :: Leaf TDot :: _) => false
+  | _ => true
+  end.
 (* what is left of an item for the reference check (its table name is not a column reference) *)
 Fixpoint skip_chain (l : list tree) : list tree :=
   match l with
@@ -507,7 +513,7 @@ with sc_segments (fuel : nat) (ext aenv tenv : list text) (level : list tree) {s
             let items := split_on (is_sym 44) (take_until is_ender after) in
             let tail := from_first is_ender after in
             let aenv' := flat_map item_alias items ++ aenv in
-            forallb (item_table_ok tenv ext) items &&
+            forallb (item_table_ok tenv ext) items && forallb item_alias_ok items &&
             refs_ok aenv' false before &&
             forallb (fun it => refs_ok aenv' false (item_rest it)) items &&
             refs_ok aenv' false tail &&
